@@ -1,5 +1,5 @@
-From OV Require Import Emu.EmuCoreDefs Emu.DecodeDefs Emu.MarkDefs Emu.PvDefs.
+From OV Require Import Emu.EmuCoreDefs Emu.DecodeDefs Emu.MarkDefs Emu.PvDefs Emu.PvBreakdownDefs.
 From Coq Require Import ExtrOcamlBasic.
 Extraction "pv_x.ml" emulate tlabels_of connect decode_all mk_chans lint_chans merge_threads mark_chans
   pcf_add_type pcf_add_value prf_add prf_close prf_open pcf_text parse_pcf parse_prf prv_header parse_prv_header
-  prv_open prv_register prv_advance prv_close.
+  prv_open prv_register prv_advance prv_close bd_emulate bd_nosv bd_nanos6.
